@@ -713,7 +713,7 @@ Qed.
 (* ================= the invariant along a well-formed history ================= *)
 (* phase of the history / converter state / receiver's in-progress table / the specification's reading *)
 Inductive R : phase -> e2s -> list (key * crcd) -> sstate -> Prop :=
-| R_not : R PNot e2s0 [] ss0
+| R_not nw : R PNot (E2S false [] nw) [] (SS false [] None nw 0)      (* only time() calls so far *)
 | R_idle rt rt' nw st : same_set rt rt' -> R PIdle (E2S true [rt] nw) [] (SS true rt' None nw st)
 | R_in i tt rt tt' rt' nw t0 : same_set tt tt' -> same_set rt rt' ->
     R (PIn i) (E2S true [tt; rt] nw) [((i, None), rec0 i t0)] (SS true rt' (Some tt') nw t0)
@@ -776,18 +776,25 @@ Lemma op_step p o q s tbl ss : R p s tbl ss -> wf_step p o = Some q ->
   /\ forall2b match_fin (snd (snd (sstep ss o))) (norm_log (s2e_run tbl (snd (e2s_step s o)))) = true
   /\ R q (fst (e2s_step s o)) (s2e_tbl tbl (snd (e2s_step s o))) (fst (sstep ss o)).
 Proof.
-  intros HR Hw. destruct HR as [ | rt rt' nw st Hrt | i tt rt tt' rt' nw t0 Htt Hrt | i tt rt tt' rt' nw st Htt Hrt | s ss];
+  intros HR Hw. destruct HR as [ nw | rt rt' nw st Hrt | i tt rt tt' rt' nw t0 Htt Hrt | i tt rt tt' rt' nw st Htt Hrt | s ss];
     destruct o as [ | | t | n g | j | j | k j ds r]; cbn [wf_step] in Hw; try discriminate Hw.
-  - (* PNot, startTestRun *)
+  - (* PNot, startTestRun: a time supplied before it is forgotten *)
     inversion Hw; subst q. repeat split.
     + intros Y XM H. cbn. exact H.
     + constructor. apply same_set_refl.
-  - (* PNot, startTest: the run starts itself *)
+  - (* PNot, time: remembered *)
     inversion Hw; subst q. repeat split.
-    + intros Y XM H. cbn. rewrite Nat.eqb_refl. exact H.
-    + cbn [e2s_step ensure_started started e2s0 start_run fst snd app s2e_tbl]. cbn [s2e_step fst].
-      unfold status_ev, now_ts. cbn [now]. fold (status_e j Inprogress None (Some wall)). rewrite s2e_start_step.
-      cbn [fst s2e_tbl]. constructor; apply same_set_refl.
+    + intros Y XM H. cbn. exact H.
+    + constructor.
+  - (* PNot, startTest: the run starts itself and keeps the time supplied so far *)
+    inversion Hw; subst q. repeat split.
+    + intros Y XM H. cbn [sstep e2s_step ensure_started started start_run tagstack now fst snd app ss_started ss_now].
+      unfold status_ev. cbn [group pure_file e_fname e_status e_tags app forall2b]. rewrite H, andb_true_r.
+      unfold match_mid, canon_ev, now_ts, ss_ts. cbn. rewrite Nat.eqb_refl. destruct nw; cbn; rewrite ?Nat.eqb_refl; reflexivity.
+    + cbn [e2s_step ensure_started started start_run tagstack now fst snd app s2e_tbl]. cbn [s2e_step fst].
+      unfold status_ev, now_ts. cbn [now].
+      fold (status_e j Inprogress None (Some (match nw with Some t => t | None => wall end))). rewrite s2e_start_step.
+      cbn [fst s2e_tbl sstep ss_started ss_run_tags ss_now ss_ts current_tags tagstack]. constructor; apply same_set_refl.
   - (* PIdle, stopTestRun *)
     inversion Hw; subst q. repeat split.
     + intros Y XM H. cbn. exact H.
@@ -855,7 +862,7 @@ Qed.
 Theorem model_meets_spec : forall i, wf i = true -> spec_okb i (model i) = true.
 Proof.
   intros i W. unfold spec_okb. rewrite W. unfold alpha, model. cbn [o_mid o_fin a_mid a_fin].
-  unfold final_log, mid_stream. destruct (history_ok (hist i) PNot e2s0 [] ss0 R_not W) as [-> ->]. reflexivity.
+  unfold final_log, mid_stream. destruct (history_ok (hist i) PNot e2s0 [] ss0 (R_not None) W) as [-> ->]. reflexivity.
 Qed.
 
 Theorem spec_okb_sound : forall i o, spec_okb i o = true -> Spec i o.
@@ -868,10 +875,43 @@ Qed.
 Theorem stream_wf : forall h, wf_from PNot h = true ->
   Forall2 (fun x a => match_mid x a = true) (fst (expected ss0 h)) (group (mid_stream h)).
 Proof.
-  intros h W. apply forall2b_Forall2. exact (proj1 (history_ok h PNot e2s0 [] ss0 R_not W)).
+  intros h W. apply forall2b_Forall2. exact (proj1 (history_ok h PNot e2s0 [] ss0 (R_not None) W)).
 Qed.
 Theorem roundtrip : forall h, wf_from PNot h = true ->
   Forall2 (fun y l => match_fin y l = true) (snd (expected ss0 h)) (norm_log (final_log h)).
 Proof.
-  intros h W. apply forall2b_Forall2. exact (proj2 (history_ok h PNot e2s0 [] ss0 R_not W)).
+  intros h W. apply forall2b_Forall2. exact (proj2 (history_ok h PNot e2s0 [] ss0 (R_not None) W)).
+Qed.
+
+(* ================= time() before the run is started ================= *)
+(* any number of time() calls before the start leave only the last one behind, in the converter ... *)
+Lemma e2s_run_times ts : forall s h,
+  e2s_run s (map OTime ts ++ h) = e2s_run (E2S (started s) (tagstack s) (last (map Some ts) (now s))) h.
+Proof.
+  induction ts as [|t ts IH]; intros s h; [destruct s; reflexivity|].
+  cbn [map app e2s_run e2s_step fst snd]. rewrite IH. cbn [started tagstack now]. rewrite last_cons. reflexivity.
+Qed.
+(* ... and in the reading of the history *)
+Lemma expected_times ts : forall s h,
+  expected s (map OTime ts ++ h)
+  = expected (SS (ss_started s) (ss_run_tags s) (ss_test_tags s) (last (map Some ts) (ss_now s)) (ss_start s)) h.
+Proof.
+  induction ts as [|t ts IH]; intros s h; [destruct s; reflexivity|].
+  cbn [map app expected sstep fst snd]. rewrite IH. cbn [ss_started ss_run_tags ss_test_tags ss_now ss_start].
+  rewrite last_cons. destruct (expected _ h). reflexivity.
+Qed.
+
+(* time(t) then the implicit start: 'inprogress' carries t - sent and demanded;
+   time(..) then an explicit startTestRun: the wall clock - sent and demanded *)
+Theorem time_before_start ts t i h :
+  (exists rest, mid_stream (map OTime ts ++ OTime t :: OStartTest i :: h)
+                = MStartRun :: status_ev i Inprogress None (Some t) :: rest)
+  /\ (exists xs, fst (expected ss0 (map OTime ts ++ OTime t :: OStartTest i :: h))
+                 = XStartRun :: XStatus i Inprogress None t :: xs)
+  /\ (exists rest, mid_stream (map OTime ts ++ OStartRun :: OStartTest i :: h)
+                   = MStartRun :: status_ev i Inprogress None (Some wall) :: rest)
+  /\ (exists xs, fst (expected ss0 (map OTime ts ++ OStartRun :: OStartTest i :: h))
+                 = XStartRun :: XStatus i Inprogress None wall :: xs).
+Proof.
+  unfold mid_stream. rewrite !e2s_run_times, !expected_times. repeat split; eexists; cbn; reflexivity.
 Qed.
